@@ -16,7 +16,9 @@
                                          increase_biofuels_then_feed, compute_parameters_third_round (feed part)
      src/scenarios/run_scenario.py       run_round_2 (the -20 clip), run_and_analyze_scenario (round decision tree)
 
-   Python floats are read as exact rationals. *)
+   Python floats are read as exact rationals.
+   [Qred] (reduction to lowest terms, Qred q == q) is inserted after additions: it is the identity on the rational
+   VALUE and only keeps numerators/denominators small when case files are evaluated with vm_compute. *)
 From Coq Require Import QArith List String Bool.
 From Allfed Require Import Base.StrUtil.
 Import ListNotations.
@@ -57,7 +59,7 @@ Record classes := { chickens : list Q; pigs : list Q; small_nc : list Q; medium_
 Definition zeros (n : nat) : list Q := repeat 0 n.
 
 (* numpy  a += b  on equal-length arrays (see lengths_ok) *)
-Definition vadd (a b : list Q) : list Q := map (fun p => fst p + snd p) (combine a b).
+Definition vadd (a b : list Q) : list Q := map (fun p => Qred (fst p + snd p)) (combine a b).
 
 (* one iteration of the loop of get_meat_produced: chicken and pig ASSIGN, the three size classes ADD;
    an animal that matches no branch (unknown size) is ignored *)
@@ -94,7 +96,7 @@ Definition lengths_ok (herd : list animal) : bool :=
 
 (* ------------------------------------------------------------------ calculate_meat_after_distribution_waste (kcals) *)
 Definition meat_after_distribution_waste (y : yields) (dist_waste : Q) (c p s m l : Q) : Q :=
-  (c * KPC y + p * KPP y + s * KPS y + m * KPM y + l * KPL y) * (1 - dist_waste / 100).
+  Qred ((c * KPC y + p * KPP y + s * KPS y + m * KPM y + l * KPL y) * (1 - dist_waste / 100)).
 
 (* get_max_slaughter_monthly_after_distribution_waste:  for m in range(len(small_animals_nonchicken_culled)) *)
 Definition each_month_meat (y : yields) (dist_waste : Q) (c : classes) : list Q :=
@@ -107,12 +109,12 @@ Definition each_month_meat (y : yields) (dist_waste : Q) (c : classes) : list Q 
 Fixpoint running_from (acc : Q) (l : list Q) : list Q :=
   match l with
   | [] => []
-  | x :: t => (acc + x) :: running_from (acc + x) t
+  | x :: t => Qred (acc + x) :: running_from (Qred (acc + x)) t
   end.
 Definition running (l : list Q) : list Q := running_from 0 l.
 
 (* np.sum *)
-Definition qsum (l : list Q) : Q := fold_right Qplus 0 l.
+Definition qsum (l : list Q) : Q := fold_right (fun x acc => Qred (x + acc)) 0 l.
 
 (* constants_out["meat_summed_consumption"]: the same formula applied to the five np.sum's *)
 Definition meat_summed (y : yields) (dist_waste : Q) (c : classes) : Q :=
@@ -141,7 +143,7 @@ Definition monthly_milk_tons (yield_kg_per_year : Q) (pop : Q) : Q := pop * yiel
 
 (* get_milk_produced_postwaste (kcals): billion kcals *)
 Definition milk_postwaste (dist_waste retail_waste : Q) (tons : Q) : Q :=
-  tons * 1000 * MILK_KCALS / E9 * (1 - dist_waste / 100) * (1 - retail_waste / 100).
+  Qred (tons * 1000 * MILK_KCALS / E9 * (1 - dist_waste / 100) * (1 - retail_waste / 100)).
 
 Definition milk_kcals (add_milk : bool) (yield_kg_per_year dist_waste retail_waste : Q) (herd : list animal) : list Q :=
   map (fun p => if add_milk then milk_postwaste dist_waste retail_waste (monthly_milk_tons yield_kg_per_year p) else 0)
